@@ -1,6 +1,7 @@
 import OtelVerif.Common.Line
 import OtelVerif.Model.C03
 import OtelVerif.Model.C03Replay
+import OtelVerif.Model.C03Mon
 /-! driver for C03: model `c03-shutdown` — the Lean monitor `C03.verdict` evaluated on the recorded trace of the real exporter -/
 open OtelVerif OtelVerif.Line OtelVerif.C03
 
@@ -85,6 +86,7 @@ def handler : Handler S where
         | some rl => { s with tevs := .ms (f == 1) cur req rl (k == 1) :: s.tevs }
         | none => { s with bad := some "ms" }
       | _, _, _, _, _, _ => { s with bad := some "ms" }
+    | "tr" :: "gauge" :: _ => s
     | ["tr", "wshut"] => { s with tevs := .wshut :: s.tevs }
     | ["tr", "uac", op] => { s with uac := some op }
     | ["tr", "stored", ids] =>
@@ -115,21 +117,10 @@ def handler : Handler S where
       let unrec := if s.persistent then (lostPersistent t s.recovered).filter (fun x => s.stored.contains x) else []
       -- persistent queue: a flight whose last call failed retryably with retries left can only have been ended by the shutdown:
       -- it has not finished export, its items must still be in storage
-      let pre := evsBefore isShutRet t
-      let starts := startsOf pre
-      let lastOf : List (Nat × List Nat) := starts.filter (fun p => !(starts.any (fun q => q.2 == p.2 && decide (p.1 < q.1))))
-      let intr : List Nat :=
-        if s.persistent && s.retry && t.any isShutReq then
-          (lastOf.filter (fun p => s.ends.any (fun e => e.1 == p.1 && e.2.1 && !e.2.2.1 && e.2.2.2))).flatMap
-            (fun p => p.2.filter (fun x => (earlyItems t).contains x && !s.stored.contains x))
-        else []
-      let intr := intr.mergeSort (· ≤ ·)
-      -- … and, when they are in storage, the next start must deliver them
-      let intrUnrec : List Nat :=
-        if s.persistent && s.retry && t.any isShutReq then
-          ((lastOf.filter (fun p => s.ends.any (fun e => e.1 == p.1 && e.2.1 && !e.2.2.1 && e.2.2.2))).flatMap
-            (fun p => p.2.filter (fun x => (earlyItems t).contains x && s.stored.contains x && !s.recovered.contains x))).mergeSort (· ≤ ·)
-        else []
+      let ends : List EndInfo := s.ends.map (fun e => { call := e.1, failed := e.2.1, perm := e.2.2.1, left := e.2.2.2 })
+      let applies := s.persistent && s.retry && t.any isShutReq
+      let intr : List Nat := if applies then (interruptedNotStored t ends s.stored).mergeSort (· ≤ ·) else []
+      let intrUnrec : List Nat := if applies then (interruptedNotRedelivered t ends s.stored s.recovered).mergeSort (· ≤ ·) else []
       let obs := s!"obs verdict returned={if v.returned then 1 else 0} undrained={showIds und} unrecovered={showIds unrec} interrupted={showIds intr} intrunrec={showIds intrUnrec} dup={showIds v.duplicated} open={showIds v.openCalls} late={showIds v.lateCalls}"
       let pReturned := if v.returned then "prop returns=ok" else s!"prop returns=FAIL sig=C03/shutdown/never-returns queue={kind} batch={s.batch}"
       let pDrained :=
